@@ -80,9 +80,47 @@ func (a *fieldAggregator) ResultSet() (startTime int64, it series.FieldIterator)
 func (a *fieldAggregator) Aggregate(it series.FieldIterator) {
 	for it.HasNext() {
 		pIt := it.Next()
+		aggType := pIt.AggType()
 		for pIt.HasNext() {
 			slot, value := pIt.Next()
-			a.AggregateBySlot(slot, value)
+			a.aggregateBySlotAndType(aggType, slot, value)
+		}
+	}
+}
+
+// aggregateBySlotAndType aggregates a value of one primitive (aggregate type) series only into the series of
+// the same aggregate type; a select list with several functions of one field keeps one primitive series per aggregate.
+func (a *fieldAggregator) aggregateBySlotAndType(srcType field.AggType, slot int, value float64) {
+	// drop inf value
+	if math.IsInf(value, 1) {
+		return
+	}
+	matched := false
+	for _, aggType := range a.aggTypes {
+		if aggType == srcType {
+			matched = true
+			break
+		}
+	}
+	if !matched {
+		// the source does not carry its aggregate type (or an unknown one): keep the old behaviour
+		a.AggregateBySlot(slot, value)
+		return
+	}
+	pos := slot - a.start
+	for idx, aggType := range a.aggTypes {
+		if aggType != srcType {
+			continue
+		}
+		values := a.fieldSeriesList[idx]
+		if values == nil {
+			values = collections.NewFloatArray(a.end - a.start + 1)
+			values.SetValue(pos, value)
+			a.fieldSeriesList[idx] = values
+		} else if values.HasValue(pos) {
+			values.SetValue(pos, aggType.Aggregate(values.GetValue(pos), value))
+		} else {
+			values.SetValue(pos, value)
 		}
 	}
 }
